@@ -58,6 +58,14 @@ def run(m: Model, r: Report, tier: str) -> None:
     r.check(okb, "R2", f"{jh.qualname}#bracket-rule",
             f"brackets are used iff `{ast.unparse(conds[0].test) if conds else None}`: every host containing a colon (any IPv6 literal, e.g. ::1 or fe80::1) "
             "needs brackets, otherwise host and port cannot be split again", loc=jh.loc)
+    hpar = jh.params()[0]
+    rebinds = [n.lineno for n in ast.walk(jh.node) if isinstance(n, (ast.Assign, ast.AugAssign, ast.AnnAssign, ast.NamedExpr))
+               and any(isinstance(t, ast.Name) and t.id == hpar for t in ast.walk(n.targets[0] if isinstance(n, ast.Assign) else n.target))]
+    host_uses = [fv for rt in rets for fv in ast.walk(rt.value) if isinstance(fv, ast.FormattedValue) and hpar in names_in(fv.value)]
+    r.check(not rebinds and host_uses and all(isinstance(fv.value, ast.Name) and fv.conversion == -1 and fv.format_spec is None for fv in host_uses), "R2",
+            f"{jh.qualname}#host-verbatim",
+            "the host text is altered before it is written (re-assigned, escaped or formatted): split_host_port / TargetURI.hostname do not undo it, so the host "
+            "no longer joins and splits losslessly (e.g. a scoped IPv6 literal fe80::1%eth0)", loc=jh.loc)
     sh = m.require_function(f"{NET}.split_host_port")
     ssrc = ast.unparse(sh.node)
     r.check("urlparse(f'//{hostport}')" in ssrc and "url.hostname" in ssrc and "url.port" in ssrc and "ipaddress.ip_address(hostport)" in ssrc, "R2",
@@ -136,6 +144,23 @@ def run(m: Model, r: Report, tier: str) -> None:
     ai_fn = m.require_function(f"{UTILS}.auto_int")
     rets = [ast.unparse(n.value) for n in walk_no_nested(ai_fn.node) if isinstance(n, ast.Return) and n.value is not None]
     r.check(rets == ["int(arg, 0)"], "R4", ai_fn.qualname, f"auto_int returns {rets}; base 0 is what accepts 0x / 0o / 0b prefixes", loc=ai_fn.loc)
+
+    # sibling agreement: every transport config parses its integer fields with the same auto_int (base 0), nothing else first
+    n_val = 0
+    for c in m.classes.values():
+        if not c.module.name.startswith("gallia.transports."):
+            continue
+        f = c.methods.get("auto_int")
+        if f is None or not any("field_validator" in ast.unparse(d) for d in f.node.decorator_list):
+            continue
+        n_val += 1
+        vpar = [p_ for p_ in f.params() if p_ not in ("cls", "self")]
+        rets_v = [ast.unparse(n.value) for n in walk_no_nested(f.node) if isinstance(n, ast.Return) and n.value is not None]
+        r.check(len(vpar) >= 1 and rets_v == [f"auto_int({vpar[0]})"] and not any(isinstance(n, ast.Try) for n in ast.walk(f.node)), "R4", f"{f.qualname}#base-0",
+                f"the validator returns {rets_v}: all transport configs must read the same spelling as the same number (decimal, 0x, 0o, 0b via int(x, 0)); "
+                "trying another base first silently changes decimal / binary values for this scheme only", loc=f.loc)
+    if n_val < 4:
+        raise AnalysisError(f"only {n_val} transport auto_int validators found")
 
     # ---------------------------------------------------------------- R5
     un = m.require_function(f"{UTILS}.unravel")
